@@ -1,6 +1,7 @@
 //! jbharness — runs the real jbonsai code (path dependency on /repo, current working tree) on
 //! generated cases and writes one protocol line per case for the Lean driver.
 mod c02;
+mod c05;
 mod c08;
 mod c19;
 mod c20;
@@ -37,6 +38,7 @@ fn main() {
     }
     match prop {
         "C02" => c02::gen(seed, thorough),
+        "C05" => c05::gen_c05(seed, thorough),
         "C08" => c08::gen_c08(seed, thorough),
         "C09" => c08::gen_c09(seed, thorough),
         "C10" => c19::gen_c10(seed, thorough),
